@@ -183,7 +183,12 @@ var reB64Boc = regexp.MustCompile(`te6cc[A-Za-z0-9+/]{6,}={0,2}`)
 
 // repoBocs collects every byte string in the repository under test that looks like a bag of cells (hex or base64,
 // in testdata files and in string constants) and that the parser accepts.
+var repoBocsCache [][]byte
+
 func repoBocs() [][]byte {
+	if repoBocsCache != nil {
+		return repoBocsCache
+	}
 	root := os.Getenv("VERIF_REPO")
 	if root == "" {
 		root = "/repo"
@@ -242,6 +247,7 @@ func repoBocs() [][]byte {
 		}
 		return bytes.Compare(out[i], out[j]) < 0
 	})
+	repoBocsCache = out
 	return out
 }
 
